@@ -118,7 +118,7 @@ def main():
                         os.kill(os.getpid(), signal.SIGKILL)
                     threading.Thread(target=_kill_later, daemon=True).start()
             tok = v['token']
-            self.write(tok + ('-CHANGED' if (b in ('different', 'dict_diff') and rec.in_playback_mode) else ''))
+            self.write(tok + ('-CHANGED' if (b in ('different', 'dict_diff', 'error_result') and rec.in_playback_mode) else ''))
             return tok
 
         @rec.intercept_input('eq.read')
@@ -157,9 +157,17 @@ def main():
         tok = out.value['args'][0]
         if behaviour_of(tok) == 'extractor_raises':
             raise RuntimeError('extractor fails for ' + tok)
+        if behaviour_of(tok) == 'error_result' and tok.endswith('-CHANGED'):
+            return ValueError(tok)           # the extractor reports the replayed operation's failure as an exception OBJECT (the result is an error)
         return tok
 
+    # a comparator that hands out the same message-less result objects again and again (module-level constants)
+    shared_equal, shared_different = ComparatorResult(EqualityStatus.Equal), ComparatorResult(EqualityStatus.Different)
+
     def comparator(recorded, played, **kw):
+        if case.get('shared_results'):
+            same = not isinstance(played, Exception) and recorded == played
+            return shared_equal if same else shared_different
         if behaviour_of(recorded) == 'comparator_raises':
             raise RuntimeError('comparator fails for ' + recorded)
         if behaviour_of(recorded) == 'bare_status':
@@ -246,6 +254,16 @@ def main():
                 return EqualizerTuning(playback_function, result_extractor, comparator)
         studio = PlaybackStudio(['EqOp'], Tuner(), rec, recording_ids=list(ids), compare_execution_config=cfg)
         run_comparison = lambda: studio.play()['EqOp']     # noqa: E731
+    elif case.get('default_config'):
+        # the judged equalizer is built WITHOUT a configuration (documented default: in this process, results not kept); another
+        # equalizer of the process, also built without one, had its own settings changed after construction
+        neighbour = Equalizer(iter([]), player, result_extractor, comparator)
+        neighbour.compare_execution_config.keep_results_in_comparison = True
+        neighbour.compare_execution_config.compare_in_dedicated_process = True
+        neighbour.compare_execution_config.compare_process_timeout = 0.5
+        neighbour.compare_execution_config.compare_process_recycle_rate = 1
+        eq = Equalizer(iter(ids), player, result_extractor, comparator)
+        run_comparison = eq.run_comparison
     else:
         eq = Equalizer(iter(ids), player, result_extractor, comparator, compare_execution_config=cfg)
         run_comparison = eq.run_comparison
@@ -362,7 +380,7 @@ def main():
             pass
     print(json.dumps({'ids': ids, 'results': results, 'stamps': stamps, 'error': error, 'finished': finished, 'total_s': t_end,
                       'pids': pids, 'task_pid': task_pid, 'survivors': survivors, 'gone_after': gone_after, 'calib_s': calib,
-                      'late_waits': late_waits, 'companion': {'expected': companion_expected, 'got': companion_got, 'error': companion_error}}))
+                      'late_waits': late_waits, 'companion': {'expected': companion_expected, 'got': companion_got, 'error': companion_error}}, default=str))
     sys.stdout.flush()
     os._exit(0)
 
